@@ -2,9 +2,10 @@
 # tools/try_seed.sh Cxx <patch.diff> : apply a candidate change to /repo, run the check, undo it straight afterwards.
 cd "$(dirname "$0")/.."
 P="$1"; D="$(realpath "$2")"
-git -C /repo apply --check "$D" || { echo "SEED $D: does not apply"; exit 2; }
-git -C /repo apply "$D"
-./check "$P" > /var/tmp/seedrun-$P.log 2>&1; rc=$?
-git -C /repo checkout -- .
+WT=/var/tmp/tryseed-$P.$$
+git -C /repo worktree add -q --detach "$WT" HEAD || exit 2
+git -C "$WT" apply "$D" || { echo "SEED $D: does not apply"; git -C /repo worktree remove --force "$WT"; exit 2; }
+VERIF_REPO="$WT" ./check "$P" > /var/tmp/seedrun-$P.log 2>&1; rc=$?
+git -C /repo worktree remove --force "$WT"
 echo "SEED $D: exit=$rc violations=$(grep -c '^VIOLATION' /var/tmp/seedrun-$P.log) $(grep -m1 -o 'no-failing-input-found' /var/tmp/seedrun-$P.log)"
 grep '^VIOLATION' /var/tmp/seedrun-$P.log | head -3
